@@ -355,12 +355,20 @@ class CHECK(vlib.Check):
                 "invariant for every operation, iterator safety, refinement L1 = L0 with equal results for every operation and all three classes, "
                 "traversal no-skip / no-duplicate / completeness for every interleaving whose mutations do not reorder the iterator's table, liveness of "
                 "the shown entry and termination under any mutations, sorted order of the auto-sorting classes.  Effect level: SortByEntry "
-                "(stable sort + relink); Clear is modelled by its effect and the literal RemoveEntryByIndex loop is proved to have that effect (HtClear.v).  Not modelled (corresponded + harness oracle only): bucket chains, _mapTo/_mappedFrom, "
-                "free list, 8/16/32-bit index width, reallocation and the iterator re-pointing in EnsureSize, hash functors, thread-id bookkeeping "
-                "of iterator registration.")
+                "(stable sort + relink); Clear is modelled by its effect and the literal RemoveEntryByIndex loop is proved to have that effect (HtClear.v).  Storage layer (HtStore.v, second model): the slot array with "
+                "per-slot hash/key/value, BUCKET_PREV/BUCKET_NEXT, MAP_TO/MAPPED_FROM, the free list, CreateEntriesArray, GetEntry, PutAuxAux, "
+                "SwapEntryMaps, RemoveEntry (storage part), PushToFreeList/PopFromFreeList, the rebuild of EnsureSize, the growth rule of PutAux, "
+                "ComputeTableIndexTypeForTableSize; proved: chain / permutation / free-list invariant, GetEntry finds exactly the stored keys, "
+                "finite-map laws, reallocation keeps every binding, every index fits its width below the sentinel, and for all histories of "
+                "Put/Get/Remove/EnsureSize the results equal those of the L1 model (C09_store_refines_l1); compared slot by slot with the "
+                "implementation after every operation (streams store / store-width, crossing 255 slots).  Not modelled: the iterator re-pointing "
+                "inside EnsureSize at slot level (L1 keeps abstract node ids), hash functors (the storage theorems hold for an arbitrary hash "
+                "function), thread-id bookkeeping of iterator registration; the 65535/65536 crossing is exercised by the oracle-only big stream.")
     premises = ["memory safety and object lifetime of the C++ (observed by ASan/UBSan in the harness only)",
-                "node identifiers of the model are abstract (fresh per entry, never reused): slot assignment, bucket chains, index width and "
-                "reallocation are not modelled; GetEntry(hash,key) is modelled as the entry of the iteration list holding the key",
+                "node identifiers of the L1 model are abstract (fresh per entry, never reused) and GetEntry(hash,key) is there the entry of the "
+                "iteration list holding the key; slot assignment, bucket chains, index width and reallocation live in the separate storage model, "
+                "tied to L1 by equal results for all Put/Get/Remove/EnsureSize histories (not by a joint state); hashes are unbounded numbers there "
+                "(a hash equal to the invalid code 2^32-1 is not considered)",
                 "sizes and counts below 2^32 (uint32 wrap-around is not modelled); allocation never fails",
                 "single thread (iterator registration is never refused)",
                 "traversal theorems (no-dup / no-skip / complete): a relinking operation (MoveTo*, PutAt*, Sort*, Reposition, Put on an existing key "
@@ -371,7 +379,8 @@ class CHECK(vlib.Check):
     rule = ("operation scripts over 1-3 tables of one class (Hashtable / OrderedKeysHashtable / OrderedValuesHashtable <int,int>, default or "
             "colliding hash functor) and up to 5 HashtableIterators, from random.Random(seed); after EVERY operation the result, every "
             "table's order read through the next links (and cross-checked through the prev links), count, capacity, auto-sort flag, "
-            "registered-iterator list and every iterator's owner/cookie/flags/scratch are compared with the extracted L1 model; the "
+            "registered-iterator list and every iterator's owner/cookie/flags/scratch are compared with the extracted L1 model (storage "
+            "scripts: the whole slot array, free-list head, count and index width with the extracted storage model); the "
             "harness's own ideal-map + iterator-safety + traversal oracle is evaluated as well.  Non-trivial = the script mutates a "
             "table while an iterator is live and advances it afterwards, or crosses an index-width boundary.")
 
